@@ -25,7 +25,7 @@ LEVEL_TEXT = ("Exploration over models, losses, boxes and starts; the specificat
               "validity predicate rather than one expected answer.")
 LEVEL_NOTE = "Improvement is judged with an independently computed cost at 1e-9 relative slack plus the solver tolerance of the cost itself."
 DESIGN_REF = "DESIGN.md section 3 (C18)"
-CASE_TIMEOUT = 300
+CASE_TIMEOUT = 15
 
 
 def strategy(tier):
@@ -145,14 +145,30 @@ def oracle(case, rec):
         # the user starts fit where a previous, derivative-free search of this very cost ended (a point close to the
         # minimiser of THIS loss class's cost inside the box): fit must not hand back something worse
         from scipy.optimize import minimize
+        import time as _time
+        best = {"x": start.astype(float), "f": np.inf, "t0": _time.time(), "n": 0}
+
+        class _Enough(Exception):
+            pass
+
+        def _obj(th):
+            # bounded effort: at most 80 evaluations / 4 seconds, keeping the best point seen
+            if best["n"] >= 80 or _time.time() - best["t0"] > 4.0:
+                raise _Enough()
+            best["n"] += 1
+            v = float(obj.cost(np.asarray(th, float)))
+            if np.isfinite(v) and v < best["f"]:
+                best["f"], best["x"] = v, np.asarray(th, float).copy()
+            return v
         try:
-            r_ = minimize(lambda th: float(obj.cost(np.asarray(th, float))), start.astype(float), method="Nelder-Mead",
-                          bounds=list(zip(lb.astype(float), ub.astype(float))),
-                          options={"maxiter": 120, "xatol": 1e-5, "fatol": 1e-10})
-            start = np.minimum(np.maximum(np.asarray(r_.x, float), lb), ub)
-            rec.label("start:polished-by-a-derivative-free-search-of-the-same-cost")
+            minimize(_obj, start.astype(float), method="Nelder-Mead", bounds=list(zip(lb.astype(float), ub.astype(float))),
+                     options={"maxiter": 200, "xatol": 1e-5, "fatol": 1e-10})
+        except _Enough:
+            pass
         except Exception as e:
             rec.label("start:polish-failed:" + type(e).__name__)
+        start = np.minimum(np.maximum(best["x"], lb), ub)
+        rec.label("start:polished-by-a-derivative-free-search-of-the-same-cost")
     c_start_ref = _ref_cost_at(case, y, start)
     c_start_own = float(call(key + "/cost", case, obj.cost, start.copy()))
     bf = case.get("bound_form", "list")
